@@ -208,29 +208,36 @@ class InotifyEmitter(EventEmitter):
         # Always listen to delete self
         event_mask = InotifyConstants.IN_DELETE_SELF
 
+        if self.watch.is_recursive:
+            # Keep following directories that are created in, moved into or renamed inside the tree.
+            event_mask |= InotifyConstants.IN_CREATE | InotifyConstants.IN_MOVE
+
+        # Native events each event class is derived from (see queue_events()); a filter class
+        # selects the native events of all its subclasses, so base classes work as well.
+        native_events = {
+            FileMovedEvent: InotifyConstants.IN_MOVE,
+            DirMovedEvent: InotifyConstants.IN_MOVE,
+            FileCreatedEvent: InotifyConstants.IN_MOVE | InotifyConstants.IN_CREATE,
+            DirCreatedEvent: InotifyConstants.IN_MOVE | InotifyConstants.IN_CREATE,
+            FileDeletedEvent: InotifyConstants.IN_MOVE | InotifyConstants.IN_DELETE,
+            DirDeletedEvent: InotifyConstants.IN_MOVE | InotifyConstants.IN_DELETE,
+            FileModifiedEvent: InotifyConstants.IN_ATTRIB | InotifyConstants.IN_MODIFY,
+            DirModifiedEvent: (
+                InotifyConstants.IN_MOVE
+                | InotifyConstants.IN_ATTRIB
+                | InotifyConstants.IN_MODIFY
+                | InotifyConstants.IN_CREATE
+                | InotifyConstants.IN_DELETE
+                | InotifyConstants.IN_CLOSE_WRITE
+            ),
+            FileClosedEvent: InotifyConstants.IN_CLOSE_WRITE,
+            FileClosedNoWriteEvent: InotifyConstants.IN_CLOSE_NOWRITE,
+            FileOpenedEvent: InotifyConstants.IN_OPEN,
+        }
         for cls in self._event_filter:
-            if cls in {DirMovedEvent, FileMovedEvent}:
-                event_mask |= InotifyConstants.IN_MOVE
-            elif cls in {DirCreatedEvent, FileCreatedEvent}:
-                event_mask |= InotifyConstants.IN_MOVE | InotifyConstants.IN_CREATE
-            elif cls is DirModifiedEvent:
-                event_mask |= (
-                    InotifyConstants.IN_MOVE
-                    | InotifyConstants.IN_ATTRIB
-                    | InotifyConstants.IN_MODIFY
-                    | InotifyConstants.IN_CREATE
-                    | InotifyConstants.IN_CLOSE_WRITE
-                )
-            elif cls is FileModifiedEvent:
-                event_mask |= InotifyConstants.IN_ATTRIB | InotifyConstants.IN_MODIFY
-            elif cls in {DirDeletedEvent, FileDeletedEvent}:
-                event_mask |= InotifyConstants.IN_DELETE
-            elif cls is FileClosedEvent:
-                event_mask |= InotifyConstants.IN_CLOSE_WRITE
-            elif cls is FileClosedNoWriteEvent:
-                event_mask |= InotifyConstants.IN_CLOSE_NOWRITE
-            elif cls is FileOpenedEvent:
-                event_mask |= InotifyConstants.IN_OPEN
+            for event_cls, native in native_events.items():
+                if issubclass(event_cls, cls):
+                    event_mask |= native
 
         return event_mask
 
